@@ -33,6 +33,8 @@ def run_shared(prop, invs, tier, seed, level_note, with_d=False):
         if tier == "thorough":
             from . import suite
             suite_cov = suite.check(v, prop, sd)
+        if prop == "C06":
+            suite_cov["cli_conflicts"] = check_conflicts(v, sd)
     for ob, inv in fails:
         if inv not in invs:
             continue
@@ -83,3 +85,42 @@ def run(tier, seed, replay=None):
                       "file contents classified by byte equality with hand-written expected "
                       "texts; diagnostics detected by the root's directory name on stderr",
                       with_d=True)
+
+
+def check_conflicts(v, sd):
+    """C06: whatever else is on the command line, `--check` never modifies a file and exits 1 on
+    a file that plain rustfmt would rewrite -- including emit modes smuggled in as `--config`
+    pairs or through a configuration file."""
+    import subprocess
+    rustfmt = core.bin_path("rustfmt")
+    ugly = b"fn  main( ) { }\n"
+    n = 0
+    for how in ("pair", "file"):
+        for m in ("Files", "Stdout", "Json", "Checkstyle", "ModifiedLines", "Diff", "Coverage"):
+            for extra in ([], ["--backup"], ["-l"]):
+                d = sd / f"cf-{how}-{m}-{len(extra) and extra[0].strip('-')}"
+                d.mkdir()
+                f = d / "x.rs"
+                f.write_bytes(ugly)
+                args = ["--check"] + extra
+                if how == "pair":
+                    args += ["--config", f"emit_mode={m}"]
+                else:
+                    (d / "rustfmt.toml").write_text(f'emit_mode = "{m}"\n')
+                r = subprocess.run([rustfmt] + args + [str(f)], cwd=d, env=core.run_env({"HOME": str(d)}),
+                                   capture_output=True, text=True, timeout=60)
+                n += 1
+                others = sorted(p.name for p in d.iterdir() if p.name not in ("x.rs", "rustfmt.toml"))
+                bad = []
+                if f.read_bytes() != ugly:
+                    bad.append("the file was modified")
+                if others:
+                    bad.append(f"files appeared: {others}")
+                if r.returncode != 1:
+                    bad.append(f"exit {r.returncode} on an unformatted file")
+                if bad:
+                    v.violation(f"check-conflict:{how}:{m}:{' '.join(extra)}",
+                                f"rustfmt {' '.join(args)} x.rs ({how}): {bad}; stderr {r.stderr[-200:]!r}",
+                                {"args": args, "how": how, "stdout": r.stdout[:1000],
+                                 "stderr": r.stderr[-1000:]})
+    return n
